@@ -1,150 +1,304 @@
-import UF.Proofs.ProgRun
+import UF.Proofs.ProgSound
 /-
   C19, "rules already materialised continue to be served": an index that is in the cache when a query
-  starts is found by `cacheGet` (the cache never forgets a key), so the rule goes to `compile`+`Match`
-  without touching the list, whatever lists are closed.
+  starts is found by `cacheGet` (the cache never forgets a key), so the rule goes to the nil check,
+  `ruleIn`, `preparePattern` and `Match` without touching the list, whatever lists are closed; and the
+  lazy-compile cell it meets is what compiling that rule gives (`CellInv`), so the verdict is the
+  stateless one.
 -/
 namespace UF.Prog
-variable {R : Type}
-
-theorem step_cache (env : Env R) (s : State R) (t : Thread R) :
-    (step env s t).1.cache = s.cache ∨ ∃ idx r, (step env s t).1.cache = cacheInsert s.cache idx r := by
-  rcases t with ⟨q, pc, req, todo, acc⟩
-  cases pc with
-  | start => left; cases q <;> rfl
-  | get idx => left; simp only [step]; split <;> rfl
-  | read idx => left; simp only [step]; split <;> (try split) <;> rfl
-  | put idx r =>
-    simp only [step]; split
-    · left; rfl
-    · right; exact ⟨idx, r, rfl⟩
-  | comp r => left; simp only [step]; split <;> rfl
-  | fin => left; cases q <;> rfl
-  | done => left; rfl
+variable {R Re : Type}
 
 /-- The cache never forgets a key. -/
-theorem step_lookup_isSome (env : Env R) (s : State R) (t : Thread R) (idx : Idx)
+theorem step_lookup_isSome (env : Env R Re) (s : State R Re) (t : Thread R) (idx : Idx)
     (h : (cacheLookup s.cache idx).isSome) : (cacheLookup (step env s t).1.cache idx).isSome := by
-  rcases step_cache env s t with h1 | ⟨i, r, h1⟩
+  rcases step_cache env s t with h1 | ⟨i, r, _, h1⟩
   · rw [h1]; exact h
   · rw [h1]; exact cacheLookup_insert_isSome h
 
-/-- Where the cached rule `r` of index `idx` is, from the point of view of a thread. -/
-def Track (idx : Idx) (r : R) (t : Thread R) : Prop :=
-  r ∈ t.acc ∨ idx ∈ t.todo ∨ t.pc = .get idx ∨ t.pc = .comp r
+/-- Where the cached rule `r` of the work item `.st src idx` is, from the point of view of a thread. -/
+def Track (src : Src) (idx : Idx) (r : R) (t : Thread R) : Prop :=
+  (Item.st src idx, r) ∈ t.acc ∨ Item.st src idx ∈ t.todo ∨ t.pc = .get src idx ∨ t.pc = .use src idx (some r) ∨
+    t.pc = .prep (.st src idx) r ∨ t.pc = .rx (.st src idx) r
 
-theorem track_advance {idx : Idx} {r : R} {t : Thread R} (h : r ∈ t.acc ∨ idx ∈ t.todo) : Track idx r t.advance := by
+theorem track_advance {src : Src} {idx : Idx} {r : R} {t : Thread R}
+    (h : (Item.st src idx, r) ∈ t.acc ∨ Item.st src idx ∈ t.todo) : Track src idx r t.advance := by
   unfold Thread.advance
-  cases hd : t.todo with
-  | nil => rcases h with h | h
-           · exact Or.inl h
-           · rw [hd] at h; simp at h
-  | cons j rest =>
+  split
+  · next hd =>
+    rcases h with h | h
+    · split <;> exact Or.inl h
+    · rw [hd] at h; cases h
+  · next src' idx' rest hd =>
     rcases h with h | h
     · exact Or.inl h
     · rw [hd] at h
       rcases List.mem_cons.mp h with h | h
-      · right; right; left; simp [h]
+      · simp only [Item.st.injEq] at h
+        right; right; left; simp [h.1, h.2]
+      · right; left; exact h
+  · next k rest hd =>
+    rcases h with h | h
+    · exact Or.inl h
+    · rw [hd] at h
+      rcases List.mem_cons.mp h with h | h
+      · cases h
       · right; left; exact h
 
-theorem step_track {env : Env R} {s : State R} {t : Thread R} {idx : Idx} {r : R}
-    (hc : CacheInv env s) (hl : (cacheLookup s.cache idx).isSome) (htr : env.truth idx = some r)
-    (hm : env.mtch r t.req = true) (hs : t.pc ≠ .start) (hk : Track idx r t) : Track idx r (step env s t).2 := by
-  rcases t with ⟨q, pc, req, todo, acc⟩
+theorem step_track {env : Env R Re} {s : State R Re} {t : Thread R} {src : Src} {idx : Idx} {r : R}
+    (hs : SInv env s) (hg : Good env s t) (hsd : Sound env t) (hl : (cacheLookup s.cache idx).isSome)
+    (htr : env.truth idx = some r) (hw : env.wants src r = true) (hv : env.verdict src r t.req = true)
+    (hst : t.pc ≠ .start) (hk : Track src idx r t) : Track src idx r (step env s t).2 := by
+  have ht := hg.1
+  have hrx := hg.2.1
+  rcases t with ⟨q, pc, req, todo, acc, stage⟩
+  simp only at hv
+  -- a thread whose program counter moves within an item that is not ours keeps `acc` and `todo`
+  have other : ∀ (pc' : PC R), ((Item.st src idx, r) ∈ acc ∨ Item.st src idx ∈ todo) →
+      Track src idx r ({ q := q, pc := pc', req := req, todo := todo, acc := acc, stage := stage } : Thread R) := by
+    intro pc' h
+    rcases h with h | h
+    · exact Or.inl h
+    · exact Or.inr (Or.inl h)
   cases pc with
-  | start => exact absurd rfl hs
-  | get i =>
-    simp only [step]
-    rcases hk with hk | hk | hk | hk
-    · split <;> exact Or.inl hk
-    · split <;> exact Or.inr (Or.inl hk)
-    · simp at hk; subst hk
+  | start => exact absurd rfl hst
+  | get src' idx' =>
+    simp only [step, stepG]
+    rcases hk with hk | hk | hk | hk | hk | hk
+    · split <;> exact other _ (Or.inl hk)
+    · split <;> exact other _ (Or.inr hk)
+    · simp only [PC.get.injEq] at hk
+      obtain ⟨h1, h2⟩ := hk
+      subst h1; subst h2
       split
       · next r' h' =>
-        have := hc _ _ (cacheLookup_mem h')
-        rw [htr] at this; simp at this; subst this
-        right; right; right; rfl
+        have := hs.1 _ _ (cacheLookup_mem h')
+        rw [htr] at this; cases this
+        right; right; right; left
+        simp [Option.filter, hw]
       · next h' => rw [h'] at hl; simp at hl
     · simp at hk
-  | read i =>
-    have hk' : r ∈ acc ∨ idx ∈ todo := by
-      rcases hk with hk | hk | hk | hk
+    · simp at hk
+    · simp at hk
+  | read src' idx' =>
+    have hk' : (Item.st src idx, r) ∈ acc ∨ Item.st src idx ∈ todo := by
+      rcases hk with hk | hk | hk | hk | hk | hk
       · exact Or.inl hk
       · exact Or.inr hk
-      · simp at hk
-      · simp at hk
-    simp only [step]; split
+      all_goals simp at hk
+    simp only [step, stepG]; split
+    · exact other _ hk'
+    · split <;> exact other _ hk'
+  | put src' idx' x =>
+    have hk' : (Item.st src idx, r) ∈ acc ∨ Item.st src idx ∈ todo := by
+      rcases hk with hk | hk | hk | hk | hk | hk
+      · exact Or.inl hk
+      · exact Or.inr hk
+      all_goals simp at hk
+    simp only [step, stepG]; split <;> exact other _ hk'
+  | use src' idx' o =>
+    simp only [step, stepG]
+    rcases hk with hk | hk | hk | hk | hk | hk
+    · -- already collected: stays collected
+      cases o with
+      | none => simp only [if_true]; exact track_advance (Or.inl hk)
+      | some x =>
+        simp only
+        split
+        · exact track_advance (Or.inl hk)
+        · split
+          · split
+            · exact track_advance (Or.inl (List.mem_append_left _ hk))
+            · exact track_advance (Or.inl hk)
+          · split
+            · exact other _ (Or.inl hk)
+            · exact track_advance (Or.inl hk)
+    · cases o with
+      | none => simp only [if_true]; exact track_advance (Or.inr hk)
+      | some x =>
+        simp only
+        split
+        · exact track_advance (Or.inr hk)
+        · split
+          · split <;> exact track_advance (Or.inr hk)
+          · split
+            · exact other _ (Or.inr hk)
+            · exact track_advance (Or.inr hk)
+    · simp at hk
+    · -- our item: the pointer is not nil
+      simp only [PC.use.injEq] at hk
+      obtain ⟨h1, h2, h3⟩ := hk
+      subst src' idx' o
+      simp only
+      split
+      · next hdup =>
+        -- `ruleIn`: the rule of this index is already in the result
+        simp only [Bool.and_eq_true, beq_iff_eq] at hdup
+        obtain ⟨hsrc, hin⟩ := hdup
+        subst hsrc
+        simp only [ruleIn, List.any_eq_true, beq_iff_eq] at hin
+        obtain ⟨e, he, hee⟩ := hin
+        have hok := (hsd.acc_ok e he).1
+        rcases e with ⟨e1, e2⟩
+        simp only at hee
+        subst hee
+        have : env.truth idx = some e2 := hok.1
+        rw [htr] at this; cases this
+        exact track_advance (Or.inl he)
+      · split
+        · next hh =>
+          have hp : env.pre r req = true := by simpa [Env.verdict, hh] using hv
+          simp only [hp, if_true]
+          exact track_advance (Or.inl (by simp))
+        · next hh =>
+          have hh' : (src == Src.host) = false := by simpa using hh
+          rw [verdict_not_host env hh'] at hv
+          have hp : env.pre r req = true := by
+            simp only [Env.mtch, Bool.and_eq_true] at hv; exact hv.1
+          simp only [hp, if_true]
+          right; right; right; right; left; rfl
+    · simp at hk
+    · simp at hk
+  | seq k =>
+    have hk' : (Item.st src idx, r) ∈ acc ∨ Item.st src idx ∈ todo := by
+      rcases hk with hk | hk | hk | hk | hk | hk
+      · exact Or.inl hk
+      · exact Or.inr hk
+      all_goals simp at hk
+    simp only [step, stepG]
+    split
     · exact track_advance hk'
     · split
-      · rcases hk' with h | h
-        · exact Or.inl h
-        · exact Or.inr (Or.inl h)
+      · exact other _ hk'
       · exact track_advance hk'
-  | put i x =>
-    simp only [step]
-    rcases hk with hk | hk | hk | hk
-    · split <;> exact Or.inl hk
-    · split <;> exact Or.inr (Or.inl hk)
+  | prep it x =>
+    obtain ⟨hob, hpre⟩ := ht.prep_ok it x (Or.inl rfl)
+    simp only [step, stepG]
+    rcases hk with hk | hk | hk | hk | hk | hk
+    · split
+      · exact other _ (Or.inl hk)
+      · exact track_advance (Or.inl hk)
+      · split
+        · exact track_advance (Or.inl (List.mem_append_left _ hk))
+        · exact other _ (Or.inl hk)
+        · exact track_advance (Or.inl hk)
+    · split
+      · exact other _ (Or.inr hk)
+      · exact track_advance (Or.inr hk)
+      · split
+        · exact track_advance (Or.inr hk)
+        · exact other _ (Or.inr hk)
+        · exact track_advance (Or.inr hk)
     · simp at hk
     · simp at hk
-  | comp x =>
-    simp only [step]
-    apply track_advance
-    rcases hk with hk | hk | hk | hk
-    · left; split <;> simp [hk]
-    · right; split <;> exact hk
+    · -- our item at `preparePattern`
+      simp only [PC.prep.injEq] at hk
+      obtain ⟨h1, h2⟩ := hk
+      subst it x
+      have hh := (hsd.prep_src src idx r (Or.inl rfl)).2
+      rw [verdict_not_host env hh] at hv
+      have hpat : env.patOK r req = true := by
+        simp only [Env.mtch, Bool.and_eq_true] at hv; exact hv.2
+      split
+      · right; right; right; right; right; rfl
+      · next hx =>
+        have hb := cell_invalid hs.2 hob hx
+        simp [Env.patOK, hb] at hpat
+      · split
+        · exact track_advance (Or.inl (by simp))
+        · right; right; right; right; right; rfl
+        · next hx => simp [Env.patOK, hx] at hpat
     · simp at hk
-    · simp at hk; subst hk
-      simp at hm
-      left; simp [hm]
+  | rx it x =>
+    obtain ⟨hob, hpre⟩ := ht.prep_ok it x (Or.inr rfl)
+    obtain ⟨y, hy⟩ := hrx it x rfl
+    simp only [step, stepG, hy]
+    rcases hk with hk | hk | hk | hk | hk | hk
+    · split
+      · exact track_advance (Or.inl (List.mem_append_left _ hk))
+      · exact track_advance (Or.inl hk)
+    · split <;> exact track_advance (Or.inr hk)
+    · simp at hk
+    · simp at hk
+    · simp at hk
+    · simp only [PC.rx.injEq] at hk
+      obtain ⟨h1, h2⟩ := hk
+      subst it x
+      have hh := (hsd.prep_src src idx r (Or.inr rfl)).2
+      rw [verdict_not_host env hh] at hv
+      have hpat : env.patOK r req = true := by
+        simp only [Env.mtch, Bool.and_eq_true] at hv; exact hv.2
+      have hcr := cell_compiled hs.2 hob hy
+      have ha : env.accepts y r req = true := by simpa [Env.patOK, hcr] using hpat
+      simp only [ha, if_true]
+      exact track_advance (Or.inl (by simp))
+  | mid =>
+    have hk' : (Item.st src idx, r) ∈ acc := by
+      have htodo := ht.end_todo (Or.inl rfl)
+      simp only at htodo
+      rcases hk with hk | hk | hk | hk | hk | hk
+      · exact hk
+      · rw [htodo] at hk; cases hk
+      all_goals simp at hk
+    simp only [step, stepG]
+    exact track_advance (Or.inl hk')
   | fin =>
-    rcases hk with hk | hk | hk | hk
-    · cases q <;> exact Or.inl hk
-    · cases q <;> exact Or.inr (Or.inl hk)
-    · simp at hk
-    · simp at hk
+    have hk' : (Item.st src idx, r) ∈ acc ∨ Item.st src idx ∈ todo := by
+      rcases hk with hk | hk | hk | hk | hk | hk
+      · exact Or.inl hk
+      · exact Or.inr hk
+      all_goals simp at hk
+    cases q <;> simp only [step, stepG] <;> exact other _ hk'
   | done => exact hk
+  | crash => exact hk
 
-/-- A cached, matching candidate is in the answer of a sequentially run query -- in ANY fault state. -/
-theorem runQuery_cached {env : Env R} {s : State R} (q : Query) {idx : Idx} {r : R}
-    (hc : CacheInv env s) (hin : (idx, r) ∈ s.cache) (hcand : idx ∈ env.cands (env.reqOf q))
-    (hm : env.mtch r (env.reqOf q) = true) : r ∈ (runQuery env s q).2.answer env := by
-  have htr := hc _ _ hin
-  have hl : (cacheLookup s.cache idx).isSome := by
-    unfold cacheLookup
-    cases hf : s.cache.find? (fun e => e.1 == idx) with
-    | some e => simp
-    | none =>
-      have := List.find?_eq_none.mp hf _ hin
-      simp at this
+/-- A cached, matching candidate of the network tables is in the answer of a sequentially run query -- in
+    ANY fault state, whatever the lazy-compile cells hold. -/
+theorem runQuery_cached {env : Env R Re} {s : State R Re} (q : Query) {b : Bool} {idx : Idx} {r : R}
+    (hs : SInv env s) (hq : q.trivial = false) (hin : (idx, r) ∈ s.cache)
+    (hcand : (b, idx) ∈ env.cands (env.reqOf q)) (hw : env.wants (if b then .sc else .dom) r = true)
+    (hm : env.mtch r (env.reqOf q) = true) : r ∈ (runQuery env s q).2.answer.1 := by
+  have htr := hs.1 _ _ hin
+  have hl := cacheLookup_isSome_of_mem hin
+  generalize hsrc : (if b then Src.sc else Src.dom) = src at hw
+  have hnh : (src == Src.host) = false := by subst hsrc; cases b <;> rfl
+  have hitem : Item.st src idx ∈ env.items1 (env.reqOf q) := by
+    subst hsrc
+    simp only [Env.items1, List.mem_append, List.mem_map]
+    left; exact ⟨(b, idx), hcand, rfl⟩
   -- invariant of the solo run
   have inv := runQuery_inv env
-    (fun s t => (CacheInv env s ∧ (cacheLookup s.cache idx).isSome) ∧ TInv env t ∧ t.q = q ∧ (t.pc ≠ .start → Track idx r t))
+    (fun s t => (SInv env s ∧ (cacheLookup s.cache idx).isSome) ∧ Good env s t ∧ Sound env t ∧ t.q = q ∧
+      (t.pc ≠ .start → Track src idx r t))
     (fun s t h => by
-      refine ⟨⟨step_cacheInv h.1.1 h.2.1, step_lookup_isSome env s t idx h.1.2⟩, step_tinv h.2.1, by rw [step_q]; exact h.2.2.1, fun _ => ?_⟩
-      by_cases hs : t.pc = .start
-      · -- the first action: the candidates are computed
-        rcases t with ⟨q', pc, req, todo, acc⟩
-        simp at hs; subst hs
-        have hq : q' = q := h.2.2.1
-        subst hq
+      refine ⟨⟨step_sinv h.1.1 h.2.1.1, step_lookup_isSome env s t idx h.1.2⟩, step_good h.1.1 h.2.1,
+        step_sound h.1.1 h.2.1 h.2.2.1, by rw [step_q]; exact h.2.2.2.1, fun _ => ?_⟩
+      by_cases hst : t.pc = .start
+      · -- the first action: the work list is computed
+        have hreq := (step_tot_start env s t hst (by rw [h.2.2.2.1]; exact hq)).2
+        rcases t with ⟨q', pc, req, todo, acc, stage⟩
+        simp only at hst; subst hst
+        have hqq : q' = q := h.2.2.2.1
+        subst hqq
         cases q' with
         | dns d =>
-          simp only [step]
+          have hd : d.hostname.isEmpty = false := by simpa [Query.trivial] using hq
+          simp only [step, stepG, hd, Bool.false_eq_true, if_false] at hreq ⊢
+          simp only [advance_req] at hreq
           apply track_advance; right
-          simp only [Env.reqOf] at hcand
-          rw [fill_overwrites' env.etld1 _ d]; exact hcand
-        | web w => simp only [step]; apply track_advance; right; exact hcand
-      · have hreq := h.2.1.req_eq hs
-        exact step_track h.1.1 h.1.2 htr (by rw [hreq, h.2.2.1]; exact hm) hs (h.2.2.2 hs))
-    s q ⟨⟨hc, hl⟩, tinv_init env q, rfl, fun h => absurd rfl h⟩
-  have hd := runQuery_done env s q
-  have hk := inv.2.2.2 (by rw [hd]; simp)
-  have htodo := inv.2.1.fin_todo (Or.inr hd)
-  rcases hk with hk | hk | hk | hk
-  · simp [Thread.answer, hk]
-  · rw [htodo] at hk; simp at hk
-  · rw [hd] at hk; simp at hk
-  · rw [hd] at hk; simp at hk
+          simp only
+          rw [hreq]; exact hitem
+        | web w => simp only [step, stepG]; apply track_advance; right; exact hitem
+      · have hreq := h.2.1.1.req_eq hst (by rw [h.2.2.2.1]; exact hq)
+        exact step_track h.1.1 h.2.1 h.2.2.1 h.1.2 htr hw
+          (by rw [hreq, h.2.2.2.1, verdict_not_host env hnh]; exact hm) hst (h.2.2.2.2 hst))
+    s q ⟨⟨hs, hl⟩, good_init env s q, sound_init env q, rfl, fun h => absurd rfl h⟩
+  have hd := (runQuery_good q hs).2.2
+  have hk := inv.2.2.2.2 (by rw [hd]; simp)
+  have htodo := inv.2.1.1.end_todo (Or.inr (Or.inr hd))
+  rcases hk with hk | hk | hk | hk | hk | hk
+  · exact mem_nets.2 ⟨_, by subst hsrc; cases b <;> rfl, hk⟩
+  · rw [htodo] at hk; cases hk
+  all_goals (rw [hd] at hk; cases hk)
 
 end UF.Prog
